@@ -78,6 +78,7 @@ class Sim(object):
         self.step_blocked = 0.0    # virtual time slept inside current step
         self.step_sleeps = 0
         self.max_step_blocked = 0.0
+        self.blocked_total = 0.0   # all virtual time spent in time.sleep()
         self.blocked_reports = []  # (time, step, blocked, nsleeps, stack)
         self.hung = None           # description of an unbounded spin
         self.capped = None
@@ -165,6 +166,7 @@ class Sim(object):
         if d < 0:
             raise ValueError("sleep length must be non-negative")
         self.step_blocked += d
+        self.blocked_total += d
         self.step_sleeps += 1
         self.advance(d)
         if self.block_hook is not None and not self._block_seen and \
